@@ -306,7 +306,7 @@ func c10SameEntries(a, b []vlib.Cmd) (bool, string) {
 
 func engineTotality(ctx *Ctx) {
 	r := vlib.NewRand(ctx.Seed, ctx.Shard, "totality")
-	nFiles := ctx.N(3200, 32000)
+	nFiles := ctx.N(3200, 96000)
 	nQ := ctx.Pick(8, 10)
 	budget := 30 * time.Second
 	notFound := apperrors.NewDatabaseNotFoundError("x", nil)
